@@ -271,7 +271,7 @@ func runC07(c *core.Ctx, ck *Check) {
 	cliBinPath = bin
 	defer func() { os.Remove(bin); cliBinPath = "" }()
 	evalWitnesses(c, ck)
-	rounds := c.Scale(6, 120)
+	rounds := c.Scale(6, 300)
 	type job struct {
 		e *eco.Eco
 		k int
